@@ -93,10 +93,17 @@ theorem C18_static_model_verdict_ok (blocks : List Block) (path ae : Bytes) (sib
   unfold staticVerdict
   rw [hv]
   unfold staticInner
-  cases pickSibling siblings ae with
-  | none => simp [plainRun, plainStep, commit, finish, observe, decodeOne, unencoded]
+  cases hp : pickSibling siblings ae with
+  | none => simp [plainRun, plainStep, commit, finish, observe, decodeOne, unencoded, siblingOffered]
   | some c =>
-    cases c <;> simp [plainRun, plainStep, commit, finish, observe, decodeOne, unencoded, Coding.name, identityB]
+    have hl : listsCoding ae c = true := by
+      unfold pickSibling at hp
+      have := List.find?_some hp
+      simp only [Bool.and_eq_true] at this
+      exact this.1
+    have ho := offers_of_lists ae c hl
+    cases c <;> simp [plainRun, plainStep, commit, finish, observe, decodeOne, unencoded, Coding.name, identityB,
+      siblingOffered, ho]
 
 theorem C18_static_sibling_not_reencoded (blocks : List Block) (path ae : Bytes) (siblings : List Coding)
     (content : Bytes) (plen : Nat) (c : Coding) (h : pickSibling siblings ae = some c) :
@@ -107,14 +114,15 @@ theorem C18_static_sibling_not_reencoded (blocks : List Block) (path ae : Bytes)
   rw [h]
   cases c <;> simp [unencoded, Coding.name, identityB]
 
-/-- The sibling the file server picks is one the client lists verbatim and that exists, and no
-coding of higher priority satisfies both. -/
+/-- The sibling the file server picks exists and is in a coding the client offers (listed, not
+refused with q=0). -/
 theorem C18_sibling_choice (siblings : List Coding) (ae : Bytes) (c : Coding)
     (h : pickSibling siblings ae = some c) :
-    listsCoding ae c = true ∧ siblings.contains c = true := by
+    offersCoding ae c = true ∧ siblings.contains c = true := by
   unfold pickSibling at h
   have := List.find?_some h
-  simpa using this
+  simp only [Bool.and_eq_true] at this
+  exact ⟨offers_of_lists ae c this.1, this.2⟩
 
 /-- The tables the decision depends on are the ones in the source (regenerated on every run):
 the static encodings and their order, the Content-Encoding values the skip filter lets through
